@@ -757,7 +757,20 @@ func ruleMonotoneWrite(c *Ctx) {
 					c.Check(ok, rule, construct, "a reset to ZeroTime also zeroes logical", P.instrPos(st), "no logical = 0 store in the same function")
 					continue
 				}
-				diff := callWithArgs(sub, same(st.Val), loadOfField(phys))
+				// (the written value may arrive through a result variable whose every operand is the one value)
+				newV := st.Val
+				if alts := valueAlternatives(newV, 3); len(alts) > 0 {
+					one := true
+					for _, a := range alts[1:] {
+						if !sameVal(a, alts[0]) {
+							one = false
+						}
+					}
+					if one {
+						newV = alts[0]
+					}
+				}
+				diff := callWithArgs(sub, same(newV), loadOfField(phys))
 				gGT := guardRel("Δphys>0", ">", diff, isConstInt(0))
 				gGE := guardRel("Δphys>=0", ">= >", diff, isConstInt(0))
 				gNE := guardRel("Δphys!=0", "!= >", diff, isConstInt(0))
